@@ -162,8 +162,15 @@ def service_probe(sc, limit, ctx):
     n_req = limit + 2
     before = len(nw.requests)
     sent = []
+    # like a restarted client, the probe first reuses identifier pairs that earlier (lost) connections had in flight
+    reuse = []
+    for s_old in sc.socks[:c]:
+        for f in s_old.inreq:
+            if (f.h.hbh, f.h.e2e) not in reuse and f.h.code == 271:
+                reuse.append((f.h.hbh, f.h.e2e))
     for k in range(n_req):
-        d = env.acr(host="peer2.example.org", hbh=0x9000 + k, e2e=0xa000 + k, session=f"probe;{k}")
+        hbh, e2e = reuse[k] if k < len(reuse) else (0x9000 + k, 0xa000 + k)
+        d = env.acr(host="peer2.example.org", hbh=hbh, e2e=e2e, session=f"probe;{k}")
         sent.append(rc.Frame(d))
         nw.deliver(s.fs, d)
         sc.sync()
